@@ -26,6 +26,7 @@ RULE = ("full-grammar ASTs (every node kind, lists in lists, any() without lambd
         "single-point mutations}. distinct = distinct (tree text, sub-check); non-trivial = "
         "tree has >= 4 nodes")
 RULE += (" " + 'Also: value-dependent handlers (rotate identifiers / strings, increment integers, identity, empty results) with collision trees; M-immut compares the instance __dict__ keys of every node; traversal re-checked after the shipped visitors ran.')
+RULE += (" " + 'Selective handlers: replace the k-th Integer/String chosen by identity, hand all other nodes back unchanged, on lists with repeated values.')
 ASSUMPTIONS = ["reference traversal order = dataclasses.fields order, lists left to right",
                "shipped ORM visitors run against the harness models (vpmon/envs)"]
 SHARDS = {"quick": 12, "thorough": 16}
